@@ -224,10 +224,13 @@ CLAIMS = {
          "prediction), plus Rust's own str::parse / to_string / wrapping_* against the model. An independent oracle evaluates every emitted operator "
          "on all 8-bit operand pairs (boundary+random pairs for wider types) against the source meaning, with Go's constant-expression rules.",
     design_ref="§5 C10",
-    note="Floats are validated, not proved: literal -> Core bits against an independent correctly-rounded decimal->binary conversion and Rust's parse, "
+    note="Go constant expressions over float literals (Model/GoConst.lean): float_const_faithful_if_exact_operands (abstract rounding), concrete "
+         "counter-examples by decide, Gen/FloatPrint table theorem; the real printed Go of 1400+ literal-operand programs is evaluated with Go's constant "
+         "rules against the source meaning. Floats are otherwise validated, not proved: literal -> Core bits against an independent correctly-rounded decimal->binary conversion and Rust's parse, "
          "printed Go literal read back, operator symbol and operand Go types; float32 'rounds every operation to single precision' rests on Go. "
          "Trusted: Lean kernel; the reading of the Go specification in goBinInt/goConstBin/goIntToken; tools/extract.py regexes; harness program templates. "
-         "Known findings: operators on all-literal operands become Go constant expressions (overflow / zero divisor rejected by the Go compiler).",
+         "Known findings: operators on all-literal operands become Go constant expressions (integers: overflow / zero divisor rejected by the Go compiler; "
+         "floats: value differs from the IEEE operation at float64 and on float32 ties, -0.0 is +0, constant zero divisor / overflow rejected).",
     technique="Lean 4 proof (induction over digit strings; BitVec/Int lemmas; decide over regenerated tables) + translator + differential correspondence + spec oracle"),
  "C11": dict(
     category="proof",
